@@ -56,6 +56,7 @@ type scheduler struct {
 	wg      sync.WaitGroup
 	mutexes map[*value]*mstate
 	wgs     map[*value]int
+	epoch   int // bumped by every change of synchronisation state (wakes goroutines polling with time.Sleep)
 }
 
 type mstate struct {
@@ -237,6 +238,7 @@ func (s *scheduler) spawn(fr *frame, fn value, args []value, pos token.Pos) {
 
 // finish hands the baton on when a goroutine ends (normally or by an uncaught panic).
 func (s *scheduler) finish(t *gthread) {
+	s.epoch++
 	main := s.threads[0]
 	if s.abort != nil {
 		s.cur = main
@@ -361,6 +363,7 @@ func (s *scheduler) canRecv(ch *schan, self *gthread) bool {
 
 // doSend performs a send that canSend allows.
 func (s *scheduler) doSend(ch *schan, v value) {
+	s.epoch++
 	if ch.closed {
 		panic(targetPanic{v: s.in.runtimeError("send on closed channel")})
 	}
@@ -385,6 +388,7 @@ func (s *scheduler) handToReceiver(r *gthread, ch *schan, v value, ok bool) {
 
 // doRecv performs a receive that canRecv allows.
 func (s *scheduler) doRecv(ch *schan) (value, bool) {
+	s.epoch++
 	if len(ch.buf) > 0 {
 		v := ch.buf[0]
 		ch.buf = ch.buf[1:]
@@ -422,6 +426,7 @@ func (fr *frame) chanSend(chv, v value) {
 		s.wait(fr, func() bool { return false }, "send on nil channel")
 	}
 	t.waitCh, t.waitSend, t.sendVal, t.handed = ch, true, v, false
+	s.epoch++ // a sender is now waiting: visible to a polling select
 	s.wait(fr, func() bool { return s.canSend(ch, t) }, "chan send")
 	handed := t.handed
 	t.waitCh, t.handed, t.sendVal = nil, false, nil
@@ -440,6 +445,7 @@ func (fr *frame) chanRecv(chv value, commaOk bool) value {
 		s.wait(fr, func() bool { return false }, "receive from nil channel")
 	}
 	t.waitCh, t.waitSend, t.handed = ch, false, false
+	s.epoch++ // a receiver is now waiting
 	s.wait(fr, func() bool { return s.canRecv(ch, t) }, "chan receive")
 	var v value
 	var ok bool
@@ -467,6 +473,9 @@ func (fr *frame) chanClose(chv value) {
 		panic(targetPanic{v: fr.i.runtimeError("close of closed channel")})
 	}
 	ch.closed = true
+	if s := fr.i.sched; s != nil {
+		s.epoch++
+	}
 	if s := fr.i.sched; s != nil {
 		// blocked senders panic when they resume (doSend); blocked receivers see the closed channel
 		_ = s
@@ -521,6 +530,7 @@ func (fr *frame) selectStmt(instr *ssa.Select) value {
 			return result(-1, nil, false)
 		}
 		t.selCases, t.handed, t.selIndex = cases, false, -1
+		s.epoch++
 		s.wait(fr, func() bool { return len(ready()) > 0 }, "select")
 		handed := t.handed
 		idx := t.selIndex
@@ -584,6 +594,7 @@ func registerConcurrency(e map[string]externalFn) {
 			panic(targetPanic{v: fr.i.runtimeError("sync: unlock of unlocked mutex")})
 		}
 		m.writer = false
+		s.epoch++
 		s.point(fr)
 		return nil
 	}
@@ -604,6 +615,7 @@ func registerConcurrency(e map[string]externalFn) {
 			panic(targetPanic{v: fr.i.runtimeError("sync: RUnlock of unlocked RWMutex")})
 		}
 		m.readers--
+		s.epoch++
 		s.point(fr)
 		return nil
 	})
@@ -632,6 +644,7 @@ func registerConcurrency(e map[string]externalFn) {
 	e["(*sync.WaitGroup).Done"] = seq(func(s *scheduler, fr *frame, args []value) value {
 		p := args[0].(*value)
 		s.wgs[p]--
+		s.epoch++
 		if s.wgs[p] < 0 {
 			panic(targetPanic{v: fr.i.runtimeError("sync: negative WaitGroup counter")})
 		}
@@ -675,9 +688,12 @@ func registerConcurrency(e map[string]externalFn) {
 	e["(*time.Timer).Stop"] = func(fr *frame, args []value) value { return true }
 	e["(*time.Timer).Reset"] = func(fr *frame, args []value) value { return true }
 	e["(*time.Ticker).Stop"] = func(fr *frame, args []value) value { return nil }
+	// time.Sleep in a polling loop: the goroutine sleeps until some synchronisation state has changed (a channel
+	// operation, a close, an unlock, a goroutine ending) - polling again earlier would observe the same state
 	e["time.Sleep"] = func(fr *frame, args []value) value {
 		if s := fr.i.sched; s != nil {
-			s.point(fr)
+			e0 := s.epoch
+			s.wait(fr, func() bool { return s.epoch != e0 }, "time.Sleep")
 		}
 		return nil
 	}
